@@ -35,9 +35,7 @@ theorem OobF.reg {D : Desc} {s s' : St} {f : Fsm} (hph : s'.ph f = s.ph f) (hsrc
   · intro a b; rw [hpos]; exact (o.main (hph ▸ a) (hsrc ▸ b)).reg hb
   · intro a off b; rw [hpos]; exact o.nl (hph ▸ a) off (hsrc ▸ b)
   · intro a b; exact (o.first (hph ▸ a) (hwst ▸ b)).reg hb
-  · intro a
-    have := o.loop (hph ▸ a)
-    exact ⟨by rw [hpos]; exact this.1, by rw [hpos, hb _ this.1]; exact this.2⟩
+  · intro a; exact (o.loop (hph ▸ a)).reg hb
 
 theorem sameReg_cmd_of_take {D : Desc} {s s' : St} (h : s'.buf.take D.cmdCap = s.buf.take D.cmdCap) : SameReg D .cmd s s' := by
   intro n hn
@@ -160,7 +158,7 @@ theorem DescEq.hasNul {D D' : Desc} (h : DescEq D D') {s : St} {f : Fsm} {p : Na
 
 theorem DescEq.oobF {D D' : Desc} (h : DescEq D D') {s : St} {f : Fsm} (o : OobF D s f) : OobF D' s f :=
   ⟨fun a b => h.hasNul (o.main a b), o.nl, fun a b => h.hasNul (o.first a b),
-   fun a => by have := o.loop a; exact ⟨by rw [h.capOf]; exact this.1, by rw [h.getB]; exact this.2⟩, o.wait, o.wsle⟩
+   fun a => h.hasNul (o.loop a), o.wait, o.wsle⟩
 
 theorem DescEq.keep {D D' : Desc} (h : DescEq D D') {s : St} (w : Wf D s) (o : OobAll D s) : Wf D' s ∧ OobAll D' s := by
   have hc : D'.cmdCap = D.cmdCap := h.capOf .cmd
